@@ -180,27 +180,29 @@ Proof.
 Qed.
 
 (* the encoder's view: everything written so far by this encoder, cursor at the end *)
-Definition tidy (w : wst) : Prop := good w /\ lcur w = w_n w /\ len (view w) = w_n w.
+(* [base] = what the destination held before this encoder started writing (its e.n counts from there) *)
+Definition tidyb (base : N) (w : wst) : Prop := good w /\ lcur w = base + w_n w /\ len (view w) = base + w_n w.
+Definition tidy (w : wst) : Prop := tidyb 0 w.
 
 Lemma put_at_len_end bs p : put_at bs (len bs) p = bs ++ p. Proof. apply put_at_end. Qed.
 
-Lemma e_write_tidy w p : tidy w -> exists w', e_write w p = (false, w') /\ tidy w' /\ view w' = view w ++ p
+Lemma e_write_tidy b w p : tidyb b w -> exists w', e_write w p = (false, w') /\ tidyb b w' /\ view w' = view w ++ p
   /\ w_kind w' = w_kind w /\ w_size w' = w_size w /\ w_hpos w' = w_hpos w /\ w_n w' = w_n w + len p.
 Proof.
   intros (G & L & V). unfold e_write. destruct (ew_write_good w p G) as (w1 & E1 & (G1 & V1 & L1 & (K1 & S1 & N1 & H1))).
   rewrite E1. eexists. split; [reflexivity|].
   assert (Hv : view w1 = view w ++ p) by (rewrite V1, L, <- V; apply put_at_end).
-  unfold tidy, good, nf, view, lcur in *. cbn [w_dest w_buf w_err w_size w_n w_kind w_hpos set_n].
+  unfold tidyb, good, nf, view, lcur in *. cbn [w_dest w_buf w_err w_size w_n w_kind w_hpos set_n].
   repeat split; try apply G1; try assumption; try lia.
   - rewrite Hv, len_app''. lia.
 Qed.
 
-Lemma e_writes_tidy : forall ps w, tidy w -> exists w', e_writes w ps = (false, w') /\ tidy w' /\ view w' = view w ++ concat ps
+Lemma e_writes_tidy b : forall ps w, tidyb b w -> exists w', e_writes w ps = (false, w') /\ tidyb b w' /\ view w' = view w ++ concat ps
   /\ w_kind w' = w_kind w /\ w_size w' = w_size w /\ w_hpos w' = w_hpos w /\ w_n w' = w_n w + len (concat ps).
 Proof.
   induction ps as [|p ps IH]; intros w T; cbn [e_writes concat].
   - exists w. rewrite app_nil_r. change (len (@nil N)) with 0. repeat split; try assumption; try apply T; lia.
-  - destruct (e_write_tidy w p T) as (w1 & E1 & T1 & V1 & K1 & S1 & H1 & N1). rewrite E1.
+  - destruct (e_write_tidy b w p T) as (w1 & E1 & T1 & V1 & K1 & S1 & H1 & N1). rewrite E1.
     destruct (IH w1 T1) as (w2 & E2 & T2 & V2 & K2 & S2 & H2 & N2). exists w2. split; [exact E2|]. split; [exact T2|].
     split; [rewrite V2, V1, app_assoc; reflexivity|]. rewrite K2, S2, H2, N2, K1, S1, H1, N1, len_app''. repeat split; lia.
 Qed.
@@ -263,23 +265,23 @@ Definition parts_ok (p : eparts) : Prop :=
   (forall ds, len (p_hprov p ds) = len (p_hfinal p)) /\ p_hprov p (p_datasize p) = p_hfinal p.
 Definition sequence_bytes (p : eparts) : bytes := p_hfinal p ++ concat (p_chunks p) ++ p_crc p.
 
-Lemma tidy_flush w : tidy w -> exists w', ew_flush w = (false, w') /\ tidy w' /\ view w' = view w /\ w_buf w' = []
+Lemma tidy_flush b w : tidyb b w -> exists w', ew_flush w = (false, w') /\ tidyb b w' /\ view w' = view w /\ w_buf w' = []
   /\ w_kind w' = w_kind w /\ w_size w' = w_size w /\ w_n w' = w_n w.
 Proof.
   intros (G & L & V). destruct (ew_flush_good w G) as (w1 & E1 & (G1 & V1 & L1 & (K1 & S1 & N1 & H1)) & B1).
   exists w1. split; [exact E1|].
   assert (Hv : view w1 = view w) by (rewrite V1; apply put_at_nil; apply lcur_le_view; apply G).
   assert (Hl : lcur w1 = lcur w) by (rewrite L1; change (len (@nil N)) with 0; lia).
-  unfold tidy. rewrite Hv, Hl, N1. repeat split; try assumption; try apply G1.
+  unfold tidyb. rewrite Hv, Hl, N1. repeat split; try assumption; try apply G1.
 Qed.
 
-Lemma update_header_tidy w S hold rest hnew : tidy w -> (ew_seeker w || ew_writerat w = true)%bool ->
-  view w = S ++ hold ++ rest -> w_hpos w = len S -> len hold = len hnew ->
-  exists w', update_header w hnew = (false, w') /\ tidy w' /\ view w' = S ++ hnew ++ rest
+Lemma update_header_tidy b w S hold rest hnew : tidyb b w -> (ew_seeker w || ew_writerat w = true)%bool -> (ew_seeker w = true \/ b = 0) ->
+  view w = S ++ hold ++ rest -> b + w_hpos w = len S -> len hold = len hnew ->
+  exists w', update_header w hnew = (false, w') /\ tidyb b w' /\ view w' = S ++ hnew ++ rest
     /\ w_kind w' = w_kind w /\ w_size w' = w_size w /\ w_n w' = w_n w.
 Proof.
-  intros (G & L & V) Hcap Hview Hpos Hlen. unfold update_header.
-  assert (Htot : w_n w = len S + len hold + len rest) by (rewrite <- V, Hview, !len_app''; lia).
+  intros (G & L & V) Hcap Hbase Hview Hpos Hlen. unfold update_header.
+  assert (Htot : b + w_n w = len S + len hold + len rest) by (rewrite <- V, Hview, !len_app''; lia).
   destruct (ew_seeker w) eqn:Esk.
   - (* Seek back, Write, Seek forward *)
     set (size := w_n w - w_hpos w).
@@ -291,106 +293,161 @@ Proof.
     assert (Hv2 : view w2 = S ++ hnew ++ rest) by (rewrite V2, V1, Hview, Hl1; apply put_at_replace; exact Hlen).
     destruct (ew_seek_good w2 (Z.of_N size - Z.of_N (len hnew)) G2) as (w3 & E3 & G3 & V3 & L3 & B3 & (K3 & S3 & N3 & H3)).
     { rewrite L2, Hl1, Hv2, !len_app''. unfold size. lia. }
-    exists w3. split; [exact E3|]. unfold tidy. rewrite V3, L3, L2, Hl1, Hv2, N3, N2, N1, K3, K2, K1, S3, S2, S1.
+    exists w3. split; [exact E3|]. unfold tidyb. rewrite V3, L3, L2, Hl1, Hv2, N3, N2, N1, K3, K2, K1, S3, S2, S1.
     repeat split; try assumption; try apply G3; rewrite ?len_app''; unfold size; lia.
-  - cbn [orb] in Hcap. rewrite Hcap.
+  - cbn [orb] in Hcap. rewrite Hcap. destruct Hbase as [Habs|Hb0]; [discriminate Habs|]. subst b. rewrite N.add_0_l in *.
     destruct (ew_writeat_good w hnew (w_hpos w) G) as (w1 & E1 & G1 & V1 & L1 & B1 & (K1 & S1 & N1 & H1)).
     { rewrite V. lia. }
     exists w1. split; [exact E1|].
     assert (Hv1 : view w1 = S ++ hnew ++ rest) by (rewrite V1, Hview, Hpos; apply put_at_replace; exact Hlen).
-    unfold tidy. rewrite L1, Hv1, N1, K1, S1. repeat split; try assumption; try apply G1. rewrite !len_app''. lia.
+    unfold tidyb. rewrite L1, Hv1, N1, K1, S1, N.add_0_l. repeat split; try assumption; try apply G1. rewrite !len_app''. lia.
 Qed.
 
-Theorem encode_one_spec w p ds : tidy w -> parts_ok p ->
-  exists w', encode_one w p ds = (false, w') /\ tidy w' /\ w_buf w' = [] /\ view w' = view w ++ sequence_bytes p
+Definition base_ok (b : N) (w : wst) : Prop := ew_seeker w = true \/ b = 0 \/ (ew_seeker w || ew_writerat w)%bool = false.
+
+Theorem encode_one_spec_b b w p ds : tidyb b w -> parts_ok p -> base_ok b w ->
+  exists w', encode_one w p ds = (false, w') /\ tidyb b w' /\ w_buf w' = [] /\ view w' = view w ++ sequence_bytes p
     /\ w_kind w' = w_kind w /\ w_size w' = w_size w.
 Proof.
-  intros T [Hlen Hsame]. unfold encode_one.
+  intros T [Hlen Hsame] Hbase. unfold encode_one.
   set (w0 := set_n w (w_n w) (w_n w)).
-  assert (T0 : tidy w0) by (destruct T as (G & L & V); unfold tidy, good, nf, view, lcur, w0 in *; cbn; auto).
+  assert (T0 : tidyb b w0) by (destruct T as (G & L & V); unfold tidyb, good, nf, view, lcur, w0 in *; cbn; auto).
   assert (Hk0 : ew_seeker w0 = ew_seeker w /\ ew_writerat w0 = ew_writerat w) by (split; reflexivity).
   assert (Hv0 : view w0 = view w) by reflexivity.
-  assert (Hp0 : w_hpos w0 = len (view w)) by (destruct T as (_ & _ & V); unfold w0; cbn; lia).
+  assert (Hp0 : b + w_hpos w0 = len (view w)) by (destruct T as (_ & _ & V); unfold w0; cbn; lia).
   destruct (ew_seeker w0 || ew_writerat w0)%bool eqn:Edir.
-  - destruct (e_writes_tidy (p_hprov p ds :: p_chunks p ++ [p_crc p]) w0 T0) as (w1 & E1 & T1 & V1 & K1 & S1 & H1 & N1).
+  - destruct (e_writes_tidy b (p_hprov p ds :: p_chunks p ++ [p_crc p]) w0 T0) as (w1 & E1 & T1 & V1 & K1 & S1 & H1 & N1).
     rewrite E1.
     assert (Hv1 : view w1 = view w ++ p_hprov p ds ++ (concat (p_chunks p) ++ p_crc p)).
     { rewrite V1, Hv0. cbn [concat]. rewrite concat_app. cbn [concat]. rewrite app_nil_r. reflexivity. }
     destruct (ds =? p_datasize p) eqn:Eds.
     + apply N.eqb_eq in Eds. subst ds. rewrite Hsame in Hv1.
-      destruct (tidy_flush w1 T1) as (w2 & E2 & T2 & V2 & B2 & K2 & S2 & N2). rewrite E2.
+      destruct (tidy_flush b w1 T1) as (w2 & E2 & T2 & V2 & B2 & K2 & S2 & N2). rewrite E2.
       exists w2. repeat split; try apply T2; try assumption; [rewrite V2, Hv1; reflexivity|rewrite K2, K1; reflexivity|rewrite S2, S1; reflexivity].
-    + destruct (update_header_tidy w1 (view w) (p_hprov p ds) (concat (p_chunks p) ++ p_crc p) (p_hfinal p) T1) as (w2 & E2 & T2 & V2 & K2 & S2 & N2).
+    + destruct (update_header_tidy b w1 (view w) (p_hprov p ds) (concat (p_chunks p) ++ p_crc p) (p_hfinal p) T1) as (w2 & E2 & T2 & V2 & K2 & S2 & N2).
       { unfold ew_seeker, ew_writerat in *. rewrite K1, S1. exact Edir. }
+      { destruct Hbase as [Hs|[Hz|Hn]]; [left; unfold ew_seeker in *; rewrite K1; exact Hs|right; exact Hz|]. exfalso. destruct Hk0 as [A0 B0]. rewrite A0, B0, Hn in Edir. discriminate Edir. }
       { exact Hv1. } { rewrite H1. exact Hp0. } { apply Hlen. }
-      rewrite E2. destruct (tidy_flush w2 T2) as (w3 & E3 & T3 & V3 & B3 & K3 & S3 & N3). rewrite E3.
+      rewrite E2. destruct (tidy_flush b w2 T2) as (w3 & E3 & T3 & V3 & B3 & K3 & S3 & N3). rewrite E3.
       exists w3. repeat split; try apply T3; try assumption; [rewrite V3, V2; reflexivity|rewrite K3, K2, K1; reflexivity|rewrite S3, S2, S1; reflexivity].
-  - destruct (e_writes_tidy (p_hfinal p :: p_chunks p ++ [p_crc p]) w0 T0) as (w1 & E1 & T1 & V1 & K1 & S1 & H1 & N1).
-    rewrite E1. destruct (tidy_flush w1 T1) as (w2 & E2 & T2 & V2 & B2 & K2 & S2 & N2). rewrite E2.
+  - destruct (e_writes_tidy b (p_hfinal p :: p_chunks p ++ [p_crc p]) w0 T0) as (w1 & E1 & T1 & V1 & K1 & S1 & H1 & N1).
+    rewrite E1. destruct (tidy_flush b w1 T1) as (w2 & E2 & T2 & V2 & B2 & K2 & S2 & N2). rewrite E2.
     exists w2. repeat split; try apply T2; try assumption; [|rewrite K2, K1; reflexivity|rewrite S2, S1; reflexivity].
     rewrite V2, V1, Hv0. cbn [concat]. rewrite concat_app. cbn [concat]. rewrite app_nil_r. reflexivity.
 Qed.
 
 (* ---- one stream sequence (WriteMessage ..., SequenceCompleted) *)
-Theorem stream_one_spec w p prev : tidy w -> parts_ok p -> (ew_seeker w || ew_writerat w = true)%bool ->
-  exists w', stream_one w p prev = (false, w') /\ tidy w' /\ w_buf w' = [] /\ view w' = view w ++ sequence_bytes p
+Theorem stream_one_spec_b b w p prev : tidyb b w -> parts_ok p -> (ew_seeker w || ew_writerat w = true)%bool -> base_ok b w ->
+  exists w', stream_one w p prev = (false, w') /\ tidyb b w' /\ w_buf w' = [] /\ view w' = view w ++ sequence_bytes p
     /\ w_kind w' = w_kind w /\ w_size w' = w_size w.
 Proof.
-  intros T [Hlen Hsame] Hcap. unfold stream_one.
+  intros T [Hlen Hsame] Hcap Hbase. unfold stream_one.
   set (w0 := set_n w (w_n w) (w_n w)).
-  assert (T0 : tidy w0) by (destruct T as (G & L & V); unfold tidy, good, nf, view, lcur, w0 in *; cbn; auto).
+  assert (T0 : tidyb b w0) by (destruct T as (G & L & V); unfold tidyb, good, nf, view, lcur, w0 in *; cbn; auto).
   assert (Hv0 : view w0 = view w) by reflexivity.
-  assert (Hp0 : w_hpos w0 = len (view w)) by (destruct T as (_ & _ & V); unfold w0; cbn; lia).
-  destruct (e_writes_tidy (p_hprov p prev :: p_chunks p) w0 T0) as (w1 & E1 & T1 & V1 & K1 & S1 & H1 & N1). rewrite E1.
-  destruct (e_write_tidy w1 (p_crc p) T1) as (w2 & E2 & T2 & V2 & K2 & S2 & H2 & N2). rewrite E2.
+  assert (Hp0 : b + w_hpos w0 = len (view w)) by (destruct T as (_ & _ & V); unfold w0; cbn; lia).
+  destruct (e_writes_tidy b (p_hprov p prev :: p_chunks p) w0 T0) as (w1 & E1 & T1 & V1 & K1 & S1 & H1 & N1). rewrite E1.
+  destruct (e_write_tidy b w1 (p_crc p) T1) as (w2 & E2 & T2 & V2 & K2 & S2 & H2 & N2). rewrite E2.
   assert (Hv2 : view w2 = view w ++ p_hprov p prev ++ (concat (p_chunks p) ++ p_crc p)).
   { rewrite V2, V1, Hv0. cbn [concat]. rewrite <- !app_assoc. reflexivity. }
   destruct (prev =? p_datasize p) eqn:Eds.
   - apply N.eqb_eq in Eds. subst prev. rewrite Hsame in Hv2.
-    destruct (tidy_flush w2 T2) as (w3 & E3 & T3 & V3 & B3 & K3 & S3 & N3). rewrite E3.
+    destruct (tidy_flush b w2 T2) as (w3 & E3 & T3 & V3 & B3 & K3 & S3 & N3). rewrite E3.
     exists w3. repeat split; try apply T3; try assumption; [rewrite V3, Hv2; reflexivity|rewrite K3, K2, K1; reflexivity|rewrite S3, S2, S1; reflexivity].
-  - destruct (update_header_tidy w2 (view w) (p_hprov p prev) (concat (p_chunks p) ++ p_crc p) (p_hfinal p) T2) as (w3 & E3 & T3 & V3 & K3 & S3 & N3).
+  - destruct (update_header_tidy b w2 (view w) (p_hprov p prev) (concat (p_chunks p) ++ p_crc p) (p_hfinal p) T2) as (w3 & E3 & T3 & V3 & K3 & S3 & N3).
     { unfold ew_seeker, ew_writerat in *. rewrite K2, K1, S2, S1. exact Hcap. }
+    { destruct Hbase as [Hs|[Hz|Hn]]; [left; unfold ew_seeker in *; rewrite K2, K1; exact Hs|right; exact Hz|]. exfalso. rewrite Hn in Hcap. discriminate Hcap. }
     { exact Hv2. } { rewrite H2, H1. exact Hp0. } { apply Hlen. }
-    rewrite E3. destruct (tidy_flush w3 T3) as (w4 & E4 & T4 & V4 & B4 & K4 & S4 & N4). rewrite E4.
+    rewrite E3. destruct (tidy_flush b w3 T3) as (w4 & E4 & T4 & V4 & B4 & K4 & S4 & N4). rewrite E4.
     exists w4. repeat split; try apply T4; try assumption; [rewrite V4, V3; reflexivity|rewrite K4, K3, K2, K1; reflexivity|rewrite S4, S3, S2, S1; reflexivity].
 Qed.
 
 (* ---- chains *)
-Lemma final_is_view w : tidy w -> w_buf w = [] -> final_bytes w = view w.
+Lemma final_is_view b w : tidyb b w -> w_buf w = [] -> final_bytes w = view w.
 Proof. intros (G & _) Hb. unfold final_bytes. symmetry. apply view_flushed; [exact Hb|apply G]. Qed.
 
+Theorem encode_chain_spec_b b : forall ps w acc, tidyb b w -> w_buf w = [] -> base_ok b w -> Forall (fun x => parts_ok (fst x)) ps ->
+  exists w', encode_chain w ps acc = (rev acc ++ repeat false (length ps), w') /\ tidyb b w' /\ w_buf w' = []
+    /\ final_bytes w' = final_bytes w ++ concat (map (fun x => sequence_bytes (fst x)) ps).
+Proof.
+  induction ps as [|[p ds] ps IH]; intros w acc T B Hb Hok; cbn [encode_chain map concat length repeat].
+  - exists w. rewrite !app_nil_r. auto.
+  - inversion Hok as [|? ? Hp Hrest]; subst. cbn [fst] in Hp.
+    destruct (encode_one_spec_b b w p ds T Hp Hb) as (w1 & E1 & T1 & B1 & V1 & K1 & S1). rewrite E1.
+    destruct (IH w1 (false :: acc) T1 B1) as (w2 & E2 & T2 & B2 & F2); [unfold base_ok, ew_seeker, ew_writerat in *; rewrite K1, S1; exact Hb|exact Hrest|]. exists w2.
+    split; [rewrite E2; cbn [rev]; rewrite <- app_assoc; reflexivity|]. split; [exact T2|]. split; [exact B2|].
+    rewrite F2, (final_is_view b w1 T1 B1), V1, (final_is_view b w T B). cbn [fst]. rewrite <- app_assoc. reflexivity.
+Qed.
+
+Theorem stream_chain_spec_b b : forall ps w prev acc, tidyb b w -> w_buf w = [] -> Forall parts_ok ps -> (ew_seeker w || ew_writerat w = true)%bool ->
+  base_ok b w ->
+  exists w', stream_chain w ps prev acc = (rev acc ++ repeat false (length ps), w') /\ tidyb b w' /\ w_buf w' = []
+    /\ final_bytes w' = final_bytes w ++ concat (map sequence_bytes ps).
+Proof.
+  induction ps as [|p ps IH]; intros w prev acc T B Hok Hcap Hb; cbn [stream_chain map concat length repeat].
+  - exists w. rewrite !app_nil_r. auto.
+  - inversion Hok as [|? ? Hp Hrest]; subst.
+    destruct (stream_one_spec_b b w p prev T Hp Hcap Hb) as (w1 & E1 & T1 & B1 & V1 & K1 & S1). rewrite E1.
+    destruct (IH w1 (p_datasize p) (false :: acc) T1 B1 Hrest) as (w2 & E2 & T2 & B2 & F2).
+    { unfold ew_seeker, ew_writerat in *. rewrite K1, S1. exact Hcap. }
+    { unfold base_ok, ew_seeker, ew_writerat in *. rewrite K1, S1. exact Hb. }
+    exists w2. split; [rewrite E2; cbn [rev]; rewrite <- app_assoc; reflexivity|]. split; [exact T2|]. split; [exact B2|].
+    rewrite F2, (final_is_view b w1 T1 B1), V1, (final_is_view b w T B). rewrite <- app_assoc. reflexivity.
+Qed.
+
+(* the statements for an encoder that started on an empty destination (base 0) *)
+Lemma base_ok_0 w : base_ok 0 w. Proof. right. left. reflexivity. Qed.
+Theorem encode_one_spec w p ds : tidy w -> parts_ok p ->
+  exists w', encode_one w p ds = (false, w') /\ tidy w' /\ w_buf w' = [] /\ view w' = view w ++ sequence_bytes p
+    /\ w_kind w' = w_kind w /\ w_size w' = w_size w.
+Proof. intros T Hp. apply (encode_one_spec_b 0 w p ds T Hp). apply base_ok_0. Qed.
+Theorem stream_one_spec w p prev : tidy w -> parts_ok p -> (ew_seeker w || ew_writerat w = true)%bool ->
+  exists w', stream_one w p prev = (false, w') /\ tidy w' /\ w_buf w' = [] /\ view w' = view w ++ sequence_bytes p
+    /\ w_kind w' = w_kind w /\ w_size w' = w_size w.
+Proof. intros T Hp Hc. apply (stream_one_spec_b 0 w p prev T Hp Hc). apply base_ok_0. Qed.
 Theorem encode_chain_spec : forall ps w acc, tidy w -> w_buf w = [] -> Forall (fun x => parts_ok (fst x)) ps ->
   exists w', encode_chain w ps acc = (rev acc ++ repeat false (length ps), w') /\ tidy w' /\ w_buf w' = []
     /\ final_bytes w' = final_bytes w ++ concat (map (fun x => sequence_bytes (fst x)) ps).
-Proof.
-  induction ps as [|[p ds] ps IH]; intros w acc T B Hok; cbn [encode_chain map concat length repeat].
-  - exists w. rewrite !app_nil_r. auto.
-  - inversion Hok as [|? ? Hp Hrest]; subst. cbn [fst] in Hp.
-    destruct (encode_one_spec w p ds T Hp) as (w1 & E1 & T1 & B1 & V1 & _). rewrite E1.
-    destruct (IH w1 (false :: acc) T1 B1 Hrest) as (w2 & E2 & T2 & B2 & F2). exists w2.
-    split; [rewrite E2; cbn [rev]; rewrite <- app_assoc; reflexivity|]. split; [exact T2|]. split; [exact B2|].
-    rewrite F2, (final_is_view w1 T1 B1), V1, (final_is_view w T B). cbn [fst]. rewrite <- app_assoc. reflexivity.
-Qed.
-
+Proof. intros ps w acc T B Hok. apply (encode_chain_spec_b 0 ps w acc T B); [apply base_ok_0|exact Hok]. Qed.
 Theorem stream_chain_spec : forall ps w prev acc, tidy w -> w_buf w = [] -> Forall parts_ok ps -> (ew_seeker w || ew_writerat w = true)%bool ->
   exists w', stream_chain w ps prev acc = (rev acc ++ repeat false (length ps), w') /\ tidy w' /\ w_buf w' = []
     /\ final_bytes w' = final_bytes w ++ concat (map sequence_bytes ps).
-Proof.
-  induction ps as [|p ps IH]; intros w prev acc T B Hok Hcap; cbn [stream_chain map concat length repeat].
-  - exists w. rewrite !app_nil_r. auto.
-  - inversion Hok as [|? ? Hp Hrest]; subst.
-    destruct (stream_one_spec w p prev T Hp Hcap) as (w1 & E1 & T1 & B1 & V1 & K1 & S1). rewrite E1.
-    destruct (IH w1 (p_datasize p) (false :: acc) T1 B1 Hrest) as (w2 & E2 & T2 & B2 & F2).
-    { unfold ew_seeker, ew_writerat in *. rewrite K1, S1. exact Hcap. }
-    exists w2. split; [rewrite E2; cbn [rev]; rewrite <- app_assoc; reflexivity|]. split; [exact T2|]. split; [exact B2|].
-    rewrite F2, (final_is_view w1 T1 B1), V1, (final_is_view w T B). rewrite <- app_assoc. reflexivity.
-Qed.
+Proof. intros ps w prev acc T B Hok Hc. apply (stream_chain_spec_b 0 ps w prev acc T B Hok Hc). apply base_ok_0. Qed.
 
-Lemma wst_new_tidy k size : tidy (wst_new k size [] None) /\ w_buf (wst_new k size [] None) = [] /\ final_bytes (wst_new k size [] None) = [].
+Lemma wst_new_tidyb k size pre : tidyb (len pre) (wst_new k size pre None) /\ w_buf (wst_new k size pre None) = [] /\ final_bytes (wst_new k size pre None) = pre.
 Proof.
-  unfold wst_new, tidy, good, nf, view, lcur, final_bytes, dest_new. cbn. repeat split; try reflexivity; try lia;
-    try (destruct (size <=? 0)%Z; unfold len; cbn; lia).
+  unfold wst_new, tidyb, good, nf, view, lcur, final_bytes, dest_new. cbn [w_dest w_buf w_err w_size w_n d_bytes d_cur d_fault].
+  change (len (@nil N)) with 0. rewrite put_at_nil by lia. repeat split; try reflexivity; try lia.
+Qed.
+Lemma wst_new_tidy k size : tidy (wst_new k size [] None) /\ w_buf (wst_new k size [] None) = [] /\ final_bytes (wst_new k size [] None) = [].
+Proof. exact (wst_new_tidyb k size []). Qed.
+
+(* C09, destination that already holds bytes (cursor at their end) when a fresh encoder starts on it: plain writers and
+   everything that can seek append exactly the sequences and leave the earlier bytes untouched.  A destination that can only
+   WriteAt is addressed by absolute offsets counted from where the encoder started, so it is excluded. *)
+Definition appends_safely (k : wkind) : bool := match k with KWriterAt => false | _ => true end.
+Lemma appends_safely_base k size pre : appends_safely k = true -> base_ok (len pre) (wst_new k size pre None).
+Proof.
+  unfold base_ok, ew_seeker, ew_writerat, wst_new. cbn [w_kind w_size]. destruct k; cbn; intros H; try discriminate; auto.
+  right. right. destruct (size <=? 0)%Z; cbn; try reflexivity. destruct (Z.to_N size =? 0); reflexivity.
+Qed.
+Theorem batch_appends_to_earlier_content k size pre (ps : list (eparts * N)) : appends_safely k = true -> Forall (fun x => parts_ok (fst x)) ps ->
+  exists w', encode_chain (wst_new k size pre None) ps [] = (repeat false (length ps), w')
+    /\ final_bytes w' = pre ++ concat (map (fun x => sequence_bytes (fst x)) ps).
+Proof.
+  intros Hk Hok. destruct (wst_new_tidyb k size pre) as (T & B & F).
+  destruct (encode_chain_spec_b (len pre) ps _ [] T B (appends_safely_base k size pre Hk) Hok) as (w' & E & _ & _ & Fin).
+  exists w'. split; [exact E|]. rewrite Fin, F. reflexivity.
+Qed.
+Theorem stream_appends_to_earlier_content k size pre (ps : list eparts) : can_seek k = true -> Forall parts_ok ps ->
+  exists w', stream_chain (wst_new k size pre None) ps 0 [] = (repeat false (length ps), w')
+    /\ final_bytes w' = pre ++ concat (map sequence_bytes ps).
+Proof.
+  intros Hk Hok. destruct (wst_new_tidyb k size pre) as (T & B & F).
+  destruct (stream_chain_spec_b (len pre) ps _ 0 [] T B Hok) as (w' & E & _ & _ & Fin).
+  { unfold ew_seeker, wst_new. cbn [w_kind]. rewrite Hk. reflexivity. }
+  { left. unfold ew_seeker, wst_new. cbn [w_kind]. exact Hk. }
+  exists w'. split; [exact E|]. rewrite Fin, F. reflexivity.
 Qed.
 
 (* C09: whatever the destination kind, the write buffer size, and batch or stream -- the destination ends up holding the
